@@ -139,14 +139,7 @@ void GMGPolar::setup()
                                                                      stencil_distribution_method_);
                 break;
             default:
-                full_grid_smoothing_ = false;
-                levels_[level_depth].initializeSmoothing(*domain_geometry_, *density_profile_coefficients_,
-                                                         DirBC_Interior_, threads_per_level_[level_depth],
-                                                         stencil_distribution_method_);
-                levels_[level_depth].initializeExtrapolatedSmoothing(*domain_geometry_, *density_profile_coefficients_,
-                                                                     DirBC_Interior_, threads_per_level_[level_depth],
-                                                                     stencil_distribution_method_);
-                break;
+                throw std::invalid_argument("Unknown ExtrapolationType");
             }
             auto end_setup_smoother = std::chrono::high_resolution_clock::now();
             t_setup_smoother += std::chrono::duration<double>(end_setup_smoother - start_setup_smoother).count();
